@@ -95,10 +95,14 @@ def gen_cell(rng, kind, origin_class, scale, sub=0):
     return dict(kind=kind, vects=v, origin=o, L=L, ortho=kind in ('ortho', 'rot-ortho'))
 
 
-def strained(rng, vects, amount=0.04):
-    """A slightly deformed and tilted copy of a cell (the 'other' system of a displacement)."""
+def strained(rng, vects, amount=0.04, diagonal=False):
+    """A slightly deformed and tilted copy of a cell (the 'other' system of a displacement).
+    diagonal=True: each cell vector is only rescaled (an orthogonal cell stays orthogonal)."""
+    v = np.asarray(vects, float)
+    if diagonal:
+        return v * (1.0 + rng.uniform(-amount, amount, (3, 1)))
     F = np.eye(3) + rng.uniform(-amount, amount, (3, 3))
-    return np.asarray(vects, float) @ F.T
+    return v @ F.T
 
 
 def _rel_point(rng, cls):
